@@ -21,6 +21,7 @@ class G:
         self.unbound = False
         self.clash = None
         self.pool = list(POOL)
+        self.bpool = list(POOL)       # names of parameters and rec binders
 
     def fresh(self, p):
         self.k += 1
@@ -48,7 +49,7 @@ class G:
         if x < 0.6:
             return ["mark", self.fresh("K")]
         if x < 0.75 and depth > 0:
-            b = r.choice(self.pool)
+            b = r.choice(self.bpool)
             body = ["obj", [(self.fresh("u"), self.expr(scope + [b], depth - 1, fn_ok)), (self.fresh("s"), ["arr", ["var", b]])]]
             return ["rec", b, body]
         if x < 0.9 and fn_ok and self.funcs:
@@ -78,11 +79,15 @@ class G:
         if self.libq or r.random() < 0.2:
             # identifiers that spell a qualified name with another separator: `m$a` is one identifier, `m.a` is not
             self.pool = POOL + ["m$" + n for n in POOL[:2]]
+        self.bpool = list(self.pool)
+        if r.random() < 0.3:
+            # a parameter or a rec binder may carry the name of a built-in: the inner binder wins
+            self.bpool = self.pool + ["concat", "concat"]
         for n in r.sample(self.pool, r.randint(0, 3)):
             self.decls[n] = ["mark", "D:" + n]
         nf = r.randint(1, 3)
         for i in range(nf):
-            params = [r.choice(self.pool) for _ in range(r.randint(1, 3))]
+            params = [r.choice(self.bpool) for _ in range(r.randint(1, 3))]
             if r.random() < 0.7:
                 params = list(dict.fromkeys(params))        # mostly distinct parameter names
             fname = "f%d" % i
@@ -318,7 +323,16 @@ def resolve_tie(ctx, programs):
         if m is not None and m.startswith("ok "):
             m = "ok " + " ".join("%d:%s" % x for x in sorted((int(a), b) for a, b in (w.split(":") for w in m.split()[1:])))
         if got.strip() != (m or "").strip():
-            if len(ctx.broken) < 20:
+            gi, mi = got.split(), (m or "").split()
+            if gi[:1] == ["ok"] and mi[:1] == ["ok"] and [w.split(":")[0] for w in gi[1:]] == [w.split(":")[0] for w in mi[1:]]:
+                # both resolve every use, to different binders: the lexical reference (Resolve.resolve_module, proved to be
+                # the innermost enclosing binder) against what the compiler attached to the use
+                diff = [(a.split(":")[0], a.split(":")[1], b.split(":")[1]) for a, b in zip(gi[1:], mi[1:]) if a != b]
+                if len(ctx.violations) < 4:
+                    ctx.violation("an identifier use is not bound to its lexically innermost binder (Variable node %s in pre-order: compiler %s, lexical %s; "
+                                  "B = built-in, numbers = pre-order numbers of the binding nodes, 100000+ = imported)" % diff[0],
+                                  {"program": progs.source_of(p)}, " ".join(mi), " ".join(gi))
+            elif len(ctx.broken) < 20:
                 ctx.broken.append("L3 disagreement on %s: impl=[%s] model=[%s]" % (json.dumps(p["mods"])[:300], got[:200], (m or "")[:200]))
         else:
             ctx.cov["traces_validated_against_impl"] += 1
@@ -352,6 +366,7 @@ def check(ctx):
         p = dict(v["input"]["program"], features=[], ast=None)
         r = progs.compile_many([p])[0]
         core.log(str({k: x for k, x in r.items() if k not in ("yaml",)})[:1500])
+        resolve_tie(ctx, [p])
         ctx.cov["evaluations"] = 1
         return core.finish(ctx)
     n = 18000 if ctx.thorough else 1200
@@ -428,7 +443,7 @@ def check(ctx):
             ctx.sample({"program": p["mods"]})
         ctx.count("accepted")
     ctx.cov["distinct_nontrivial"] = ctx.cov["distribution"].get("nontrivial", 0)
-    ctx.cov["rule"] = ("programs over the name pool {a,b,c}: module declarations, 1-3 functions with (possibly repeated) parameter names from the pool, "
+    ctx.cov["rule"] = ("programs over the name pool {a,b,c} (parameters and rec binders also `concat`, the name of a built-in): module declarations, 1-3 functions with (possibly repeated) parameter names from the pool, "
                        "nested rec binders from the pool, qualified and unqualified imports, applications passing parameters / rec variables on; every binder "
                        "carries a distinct title marker; expected document from a lexical reference interpreter, compared after unfolding $refs to depth 3; "
                        "4% unbound uses and 5% duplicate declarations expected to be rejected. distinct_nontrivial = distinct accepted programs")
